@@ -1,11 +1,10 @@
 # pylint: disable=bad-staticmethod-argument
 
-import copy
 from typing import Any, Callable
 
 from spec_classes.types import MISSING
 from spec_classes.utils.method_builder import MethodBuilder
-from spec_classes.utils.mutation import mutate_value
+from spec_classes.utils.mutation import mutate_value, protect_via_deepcopy, thawed
 from spec_classes.utils.type_checking import type_label
 
 from .base import MethodDescriptor
@@ -164,13 +163,14 @@ class ResetMethod(MethodDescriptor):
             return self
 
         if not _inplace:
-            self = copy.deepcopy(self)
+            self = protect_via_deepcopy(self, for_mutation=True)
 
-        for attr in self.__spec_class__.attrs:
-            try:
-                delattr(self, attr)
-            except AttributeError:
-                pass
+        with thawed(self, enable=not _inplace):
+            for attr in self.__spec_class__.attrs:
+                try:
+                    delattr(self, attr)
+                except AttributeError:
+                    pass
 
         return self
 
